@@ -29,6 +29,8 @@ structure Operation (σ : Type) where
   tags : List B := []
   deprecated : Bool := false
   security : List (B × List B) := []   -- one single-scheme requirement per WithSecurity call
+  reqCT : B := []                      -- the media type key of the request body ("" = no body)
+  respCT : B := []                     -- the media type key of the responses that have content ("" = none has)
   params : List (Param σ)
   body : Option σ             -- requestBody {required: true, content: {"application/json": {schema}}}
   resps : List (Resp σ)
@@ -302,6 +304,8 @@ structure OpIn where
   tags : List B := []                      -- doc.Tags
   deprecated : Bool := false               -- doc.Deprecated
   security : List (B × List B) := []       -- doc.Security (scheme, scopes)
+  consumes : List B := []                  -- doc.Consumes as set by WithConsumes ([] = not set)
+  produces : List B := []                  -- doc.Produces as set by WithProduces ([] = not set)
   deriving Repr, Inhabited
 
 inductive Err | dupOp | status | noPaths | validation | style
@@ -424,6 +428,12 @@ def defaultResps : List (Resp IR) := [{ code := s "200", description := s "OK", 
 def opIdOf (op : OpIn) : B :=
   if op.hasDoc && op.opID ≠ [] then op.opID else generateOperationID op.method op.path
 
+/-- `first(doc.Consumes, "application/json")` after convertOperation's default for an empty list -/
+def firstCT (l : List B) : B :=
+  match l with
+  | [] => s "application/json"
+  | x :: _ => x
+
 /-- `buildOperation`: `seenOps` = the operation ids used so far -/
 def buildOperation (env : Env) (op : OpIn) (st : Schemas) (seenOps : List B) :
     Except Err (Operation IR × Schemas × List B) :=
@@ -446,7 +456,10 @@ def buildOperation (env : Env) (op : OpIn) (st : Schemas) (seenOps : List B) :
         let resps := if rr.1.isEmpty then defaultResps else rr.1
         .ok ({ opId := opID, summary := op.summary, description := op.description, params := pr.1,
                body := br.1, resps := resps, tags := op.tags, deprecated := op.deprecated,
-               security := op.security }, rr.2, seenOps')
+               security := op.security,
+               -- convertOperation defaults an empty list to application/json; `first(list, default)`
+               reqCT := if br.1.isSome then firstCT op.consumes else [],
+               respCT := if resps.any (fun r => r.schema.isSome) then firstCT op.produces else [] }, rr.2, seenOps')
 
 /-! ## Build -/
 
@@ -646,7 +659,7 @@ def Resp.map {σ τ} (f : σ → τ) (r : Resp σ) : Resp τ :=
 def Operation.map {σ τ} (f : σ → τ) (o : Operation σ) : Operation τ :=
   { opId := o.opId, summary := o.summary, description := o.description, params := o.params.map (Param.map f),
     body := o.body.map f, resps := sortResps (o.resps.map (Resp.map f)), tags := o.tags,
-    deprecated := o.deprecated, security := o.security }
+    deprecated := o.deprecated, security := o.security, reqCT := o.reqCT, respCT := o.respCT }
 
 def dialect31 : B := s "https://spec.openapis.org/oas/3.1/dialect/2024-11-10"
 
